@@ -203,6 +203,9 @@ func report(p, tier string, seed int64, stats *Stats, kf KnownFile, outDir strin
 	os.MkdirAll(filepath.Join(outDir, "replays"), 0o755)
 	for _, s := range sigs {
 		v := bySig[s]
+		if w, ok := stats.VioBy[s]; ok {
+			v = w
+		}
 		if k := kf.match(v); k != nil {
 			if !knownSeen[k.Signature] {
 				knownSeen[k.Signature] = true
